@@ -126,6 +126,8 @@ func VerifC30RaftIncr() {
 	if found {
 		got, _ = strconv.ParseInt(v, 10, 64)
 	}
+	// known finding: every read-modify-write of the raft back end (see known_findings.txt)
+	sym.Finding("RaftBackendReadModifyWrite", true)
 	sym.Assert(got == initial+okDeltas, "counter-equals-initial-plus-successful-deltas")
 	sym.Reached("end")
 }
@@ -144,6 +146,7 @@ func VerifC30RaftSetNX() {
 		})
 	}
 	sym.Wait()
+	sym.Finding("RaftBackendReadModifyWrite", true)
 	sym.Assert(oks <= 1, "at-most-one-set-nx-succeeds")
 	sym.Reached("end")
 }
